@@ -254,6 +254,17 @@ VERUS_UNITS = {
             ('if b.len() == 0 { w } else { buf_world(ent_world(w, b[0], t, comp), b.skip(1), t, comp) }', 'if b.len() == 0 { w } else { ent_world(w, b[0], t, comp) }', 'ReactCache::schedule_removal_reactions'),
         ],
     },
+    'callbacks': {
+        'template': 'callbacks.rs.tpl',
+        'owners': [(r'(Raw)?CallbackSystem::(run_with_cleanup|initialize)$', ['C13', 'C17', 'C04']), (r'CallbackSystem::(take_initialized|is_empty|is_new|has_system)$', ['C13']),
+                   (r'RawCallbackSystem::(new|is_new|is_initialized)$', ['C13'])],
+        'negctl': [
+            # an Initialized system must NOT be initialised again
+            ('CallbackSystem::Initialized(s) => ({ let out = rinit_eff::<Sys<I, O>, O>(*old(world), *s, enc(input), cleanup);', 'CallbackSystem::Initialized(s) => ({ let i0 = init_eff::<Sys<I, O>>(*old(world), *s); let out = rinit_eff::<Sys<I, O>, O>(i0.0, i0.1, enc(input), cleanup);', 'CallbackSystem::run_with_cleanup'),
+            # the slot must hold the system AS THE RUN LEFT IT
+            ('r == out.2 && *final(world) == out.0 && *final(self) == RawCallbackSystem::<I, O, S>::Initialized(out.1) }),\n        RawCallbackSystem::Initialized(s)', 'r == out.2 && *final(world) == out.0 && *final(self) == RawCallbackSystem::<I, O, S>::Initialized(i.1) }),\n        RawCallbackSystem::Initialized(s)', 'RawCallbackSystem::run_with_cleanup'),
+        ],
+    },
     'dispatch': {
         'template': 'dispatch.rs.tpl',
         'owners': [(r'schedule_entity_reaction_impl$', ['C01', 'C14']), (r'ReactCache::schedule_(insertion|mutation)_reaction$', ['C01', 'C14'])],
@@ -359,7 +370,7 @@ PROPS = {
         note=ENVNOTE + '; Vec/VecDeque specs of vstd; core::mem::replace assume_specification; std retain semantics assumed (visit order, kept iff true)',
         explanation='queue FIFO proved (Verus, unbounded); tracker prepare/start/end proved (Verus, unbounded; start restated by Kani per length L<=3/5); lemma L1 lifts the start contract to per-system FIFO for unbounded histories; runner replay step/order proved at function level (Verus)'),
     'C13': dict(category='other', design_ref='DESIGN.md 5/C13',
-        text='Verus proves on verbatim text that SystemCommandStorage::take hands out exactly the stored callback and leaves None (so a second take while it is out yields None), and insert stores exactly its argument. Kani discharges on the real RawCallbackSystem / CallbackSystem::run_with_cleanup, with a stub System carrying its own run and initialize counters, that over 2-3 consecutive runs `initialize` happens exactly once, every run is executed by the SAME instance (its private counter continues) and the system is stored back as Initialized after every run, for exclusive and non-exclusive systems. In syscommand_runner (Verus, verbatim) the callback is taken only on the run path (abort / postpone paths leave the storage alone) and, after the run and its garbage collection, the storage component of a target that still exists holds exactly THE callback that just ran, as the run left it (program-point obligation F); a target that lost its storage component is despawned, a target that is gone gets nothing back. The runner never returns while it holds a callback it took: every exit of the function - including exits a change adds - carries the ghost-state obligation G, so the system\'s persistent state cannot be dropped on an early return. Not covered: persistence across trees (opaque effects in between).',
+        text='Verus proves on verbatim text that SystemCommandStorage::take hands out exactly the stored callback and leaves None (so a second take while it is out yields None), and insert stores exactly its argument. Verus proves on the verbatim RawCallbackSystem / CallbackSystem::{initialize, run_with_cleanup, take_initialized} (generic; the `impl FnOnce(&mut World)` cleanup parameter replaced by an opaque stand-in, rule 19) the per-call cycle: a New system is initialised EXACTLY ONCE and then run, an Initialized one is run WITHOUT initialisation, and in both cases the slot afterwards holds Initialized(the same system value as the run left it) - so over ANY number of runs there is one initialisation and one instance; an Empty boxed slot runs only the cleanup. Kani restates this on the compiled code, with a stub System carrying its own run and initialize counters: over 2-3 consecutive runs `initialize` happens exactly once, every run is executed by the SAME instance (its private counter continues) and the system is stored back as Initialized after every run, for exclusive and non-exclusive systems. In syscommand_runner (Verus, verbatim) the callback is taken only on the run path (abort / postpone paths leave the storage alone) and, after the run and its garbage collection, the storage component of a target that still exists holds exactly THE callback that just ran, as the run left it (program-point obligation F); a target that lost its storage component is despawned, a target that is gone gets nothing back. The runner never returns while it holds a callback it took: every exit of the function - including exits a change adds - carries the ghost-state obligation G, so the system\'s persistent state cannot be dropped on an early return. Not covered: persistence across trees (opaque effects in between).',
         note=ENVNOTE + '; stub System = assumed contract of bevy System; Box<dyn FnMut> callbacks are opaque values in the Verus unit',
         explanation='storage take/insert and the runner\'s take-on-run-path / reinsert-the-same-callback obligations proved (Verus); one initialisation and instance identity over bounded run sequences (Kani)'),
     'C14': dict(category='other', design_ref='DESIGN.md 5/C14',
